@@ -20,7 +20,7 @@ TECHNIQUE = (
 )
 RULE = (
     "case = (rows 3-40, 1-60 features incl. integer-typed and Charge* columns, drawn column order and casing of "
-    "reserved names, optional filename/calcmass/expmass/ret_time and level columns, label encoding pm1/01/bool, "
+    "reserved names, optional filename/calcmass/expmass/ret_time (default names in any casing, or custom names passed to read_pin explicitly) and level columns, label encoding pm1/01/bool, "
     "NaN cells at drawn (column,row) positions, colscan chunk in {3,5,19}, rowscan chunk in {1,2,n-1,n,big}, workers "
     "1-4, tsv/parquet, negative variant none/missing-column/bad-label). Non-trivial: (features+identifiers) mod "
     "colscan chunk in 1..identifiers-1, or >=1 NaN column, or >=2 row chunks. Distinct = distinct canonical JSON."
@@ -34,6 +34,8 @@ ASSUMPTIONS = [
 REQUIRED = ["SpecId", "Label", "ScanNr", "Peptide", "Proteins"]
 OPTIONAL = ["filename", "calcmass", "expmass", "ret_time"]
 LEVELS = ["ModifiedPeptide", "Precursor", "PeptideGroup"]
+CUSTOM = {"filename": "RawFile", "calcmass": "TheoMass", "expmass": "MeasuredMass", "ret_time": "RTsec"}
+ARGNAME = {"filename": "filename_column", "calcmass": "calcmass_column", "expmass": "expmass_column", "ret_time": "rt_column"}
 
 
 def budget(tier):
@@ -61,6 +63,11 @@ def _case(draw, tier):
     opt = [o for o in OPTIONAL if draw(st.booleans())]
     lev = [l for l in LEVELS if draw(st.integers(0, 3)) == 0]
     names = {r: _recase(draw, r) for r in REQUIRED + opt + lev}
+    # the optional columns may carry names of the user's choosing, handed to read_pin explicitly
+    custom = draw(st.sampled_from([False, False, True]))
+    if custom:
+        for o in opt:
+            names[o] = CUSTOM[o]
     feats = []
     for i in range(nfeat):
         kind = draw(st.sampled_from(["float", "float", "float", "int"]))
@@ -86,6 +93,7 @@ def _case(draw, tier):
         "negative": draw(st.sampled_from(["none"] * 8 + ["missing", "badlabel"])),
         "neg_pick": draw(st.integers(0, 4)),
         "neg_val": draw(st.integers(0, 9)),
+        "custom": custom,
         "na_token": draw(st.sampled_from(["", "", "", "NaN", "nan", "NA", "N/A", "null", "NULL", "#N/A"])),
     }
 
@@ -206,7 +214,8 @@ def check(case):
                 except Exception as e:  # noqa: BLE001
                     raise Violation("ill-formed-wrong-error", f"{neg}: raised {type(e).__name__}: {e}") from None
                 raise Violation("ill-formed-accepted", f"{neg}: a table with a missing required column / out-of-range label was parsed without error")
-            res = guarded(mokapot.read_pin, [path], max_workers=case["workers"], sig="read_pin")
+            kw = {ARGNAME[o]: names[o] for o in OPTIONAL if o in names} if case.get("custom") else {}
+            res = guarded(mokapot.read_pin, [path], max_workers=case["workers"], sig="read_pin", **kw)
         require(isinstance(res, list) and len(res) == 1, "shape", "read_pin returns one dataset per file")
         p = res[0]
         sd = p.spectra_dataframe
@@ -267,6 +276,8 @@ def check(case):
         classes.append("nan-in-int-column")
     if nan_cols and case.get("na_token") and case["fmt"] == "tsv":
         classes.append("na-token:" + case["na_token"])
+    if case.get("custom") and any(o in names for o in OPTIONAL):
+        classes.append("explicit-optional-column-names")
     if any(h != h2 for h, h2 in zip(REQUIRED, [names[r] for r in REQUIRED])):
         classes.append("recased")
     return {"nontrivial": bool(tricky or nan_cols or rowchunks), "classes": classes, "counters": {"columns": len(header)}}
